@@ -97,9 +97,10 @@ def Helper.retLines (h : Helper) : List String :=
 def Helper.defLines (h : Helper) : List String :=
   [h.sig ++ " {"] ++ (h.body.flines h.ls []).1 ++ h.retLines ++ ["}"]
 
-/-- all prototypes, then all definitions (`emitter.py`: between the globals and `setup()`) -/
+/-- the prototypes — only when MORE THAN ONE definition is emitted (`if len(functions) > 1`) — then the definitions (`emitter.py`:
+    between the globals and `setup()`) -/
 def helperLines (hs : List Helper) : List String :=
-  hs.map (fun h => h.sig ++ ";") ++ hs.flatMap Helper.defLines
+  (if 1 < hs.length then hs.map (fun h => h.sig ++ ";") else []) ++ hs.flatMap Helper.defLines
 
 /-- the whole sketch; the scripts of this fragment always start with `mon = SerialMonitor(9600)` -/
 def CProg.lines (c : CProg) : List String :=
